@@ -56,7 +56,7 @@ func c13srcReturnsError(b *ast.BlockStmt) bool {
 
 // c13srcRepeatGuard: in convertScenarioToAmmo, the tests on `cnt` in front of `for i := 0; i < cnt; i++ { … append … }`
 func c13srcRepeatGuard(t *tr, p *packages.Package, lenText string) string {
-	x := &c13srcX{t: t, p: p, env: map[string]string{"cnt": "cnt", lenText: "have"}}
+	x := &c13srcX{t: t, p: p, env: map[string]string{"cnt": "cnt", lenText: "built"}}
 	fd := c13srcFunc(p, "", "convertScenarioToAmmo")
 	if fd == nil {
 		return x.fail(nil, "convertScenarioToAmmo not found in %s", p.PkgPath)
@@ -201,10 +201,10 @@ func c13srcRound6(t *tr) string {
 	fmt.Fprintf(&b, "/-- `const MaxSpreadSize` (components/providers/scenario/config/decode.go) -/\ndef maxSpreadSize : Int := %s\n\n", c13srcConst(x, cfg, "MaxSpreadSize"))
 	fmt.Fprintf(&b, "/-- `const maxRandStringLength` (components/providers/scenario/templater/func.go) -/\ndef maxRandStringLength : Int := %s\n\n", c13srcConst(&c13srcX{t: t, p: tmpl}, tmpl, "maxRandStringLength"))
 
-	fmt.Fprintf(&b, "/-- regenerated from `scenario/http/decode.go` `convertScenarioToAmmo`: the tests on `cnt` that return an error in front of the\nappend loop `for i := 0; i < cnt; i++` (`have` = `len(result.Requests)`) -/\ndef httpRepeatRefused (cnt have : Int) : Prop := %s\n", c13srcRepeatGuard(t, shttp, "len(result.Requests)"))
-	b.WriteString("instance (cnt have : Int) : Decidable (httpRepeatRefused cnt have) := by unfold httpRepeatRefused; exact inferInstance\n\n")
-	fmt.Fprintf(&b, "/-- the same in `scenario/grpc/decode.go` (`have` = `len(result.Calls)`) -/\ndef grpcRepeatRefused (cnt have : Int) : Prop := %s\n", c13srcRepeatGuard(t, sgrpc, "len(result.Calls)"))
-	b.WriteString("instance (cnt have : Int) : Decidable (grpcRepeatRefused cnt have) := by unfold grpcRepeatRefused; exact inferInstance\n\n")
+	fmt.Fprintf(&b, "/-- regenerated from `scenario/http/decode.go` `convertScenarioToAmmo`: the tests on `cnt` that return an error in front of the\nappend loop `for i := 0; i < cnt; i++` (`built` = `len(result.Requests)`) -/\ndef httpRepeatRefused (cnt built : Int) : Prop := %s\n", c13srcRepeatGuard(t, shttp, "len(result.Requests)"))
+	b.WriteString("instance (cnt built : Int) : Decidable (httpRepeatRefused cnt built) := by unfold httpRepeatRefused; exact inferInstance\n\n")
+	fmt.Fprintf(&b, "/-- the same in `scenario/grpc/decode.go` (`built` = `len(result.Calls)`) -/\ndef grpcRepeatRefused (cnt built : Int) : Prop := %s\n", c13srcRepeatGuard(t, sgrpc, "len(result.Calls)"))
+	b.WriteString("instance (cnt built : Int) : Decidable (grpcRepeatRefused cnt built) := by unfold grpcRepeatRefused; exact inferInstance\n\n")
 
 	// CheckSpread
 	{
@@ -258,12 +258,15 @@ func c13srcRound6(t *tr) string {
 	{
 		fd := c13srcFunc(tmpl, "", "randString")
 		xx := &c13srcX{t: t, p: tmpl, env: map[string]string{"n": "n", "str.RandStringRunes(n, letters)": "n"}}
-		body := "  " + xx.fail(nil, "func randString(cnt, letters) not found or does not start with numbers.ParseInt(cnt)")
+		body := ""
 		if fd != nil && len(fd.Body.List) > 2 &&
 			c13srcText(tmpl, fd.Body.List[0]) == "n, err := numbers.ParseInt(cnt)" {
 			if is, ok := fd.Body.List[1].(*ast.IfStmt); ok && c13srcText(tmpl, is.Cond) == "err != nil" && c13srcReturnsError(is.Body) {
 				body = xx.block(fd.Body.List[2:], "  ")
 			}
+		}
+		if body == "" {
+			body = "  " + xx.fail(nil, "func randString(cnt, letters) not found or does not start with numbers.ParseInt(cnt)")
 		}
 		b.WriteString("/-- regenerated from `templater/func.go` func `randString`, the statements after `n, err := numbers.ParseInt(cnt)` and its\nerror test: an error, or the length handed to `str.RandStringRunes` (= the `make([]rune, n)` there) -/\n")
 		b.WriteString("def randStringLen (n : Int) : Res Int :=\n" + body + "\n\n")
